@@ -13,7 +13,7 @@ git -C /repo worktree add -q --detach $wt HEAD
 if git -C $wt apply $V/seeded/$id/patch.diff 2>/dev/null || git -C $wt apply --3way $V/seeded/$id/patch.diff; then
   for c in $prop $extra; do
     s=$(date +%s)
-    out=$(cd $cp && NEVER_REPO=$wt NEVER_VERIF_CACHE=$W/cache-$id$WAVE_APPEND timeout 2400 python3 checks/check.py $c --tier quick 2>&1 | grep -v "^KNOWN")
+    out=$(cd $cp && NEVER_REPO=$wt NEVER_VERIF_CACHE=$W/cache-$id$WAVE_APPEND NEVER_VERIF_SCRATCH=$W/scratch-$id$WAVE_APPEND timeout 2400 python3 checks/check.py $c --tier quick 2>&1 | grep -v "^KNOWN")
     nv=$(echo "$out" | grep -c "^VIOLATION"); nf=$(echo "$out" | grep "^VIOLATION" | grep -vc "no-failing-input-found")
     echo "== check $c violations=$nv with_input=$nf wall=$(( $(date +%s) - s ))s" >> $log
     echo "$out" | grep "^VIOLATION" | head -3 | cut -c1-200 >> $log
@@ -23,5 +23,5 @@ if git -C $wt apply $V/seeded/$id/patch.diff 2>/dev/null || git -C $wt apply --3
 else
   echo "== PATCH DOES NOT APPLY" >> $log
 fi
-git -C /repo worktree remove --force $wt >/dev/null 2>&1; rm -rf $wt $cp $W/cache-$id$WAVE_APPEND
+git -C /repo worktree remove --force $wt >/dev/null 2>&1; rm -rf $wt $cp $W/cache-$id$WAVE_APPEND $W/scratch-$id$WAVE_APPEND
 echo "== done" >> $log
